@@ -127,6 +127,20 @@ def _reach_blocks(b, start):
     return seen
 
 
+def _buffer_root_local(b, op, depth=0):
+    """the local a `&mut buf[..]` / `&mut buf` operand borrows from (through index / deref_mut / as_mut calls)"""
+    if op['k'] not in ('copy', 'move') or depth > 8:
+        return None
+    base = b.base_of(op)
+    if not base:
+        return None
+    ds = b.defs().get(base[0], [])
+    if len(ds) == 1 and ds[0][0] == 'call' and 'q' in ds[0][1]['callee'] and ds[0][1]['args'] and \
+            callee_q(ds[0][1]).split('::')[-1] in ('index_mut', 'index', 'deref_mut', 'deref', 'as_mut', 'borrow_mut', 'as_mut_slice'):
+        return _buffer_root_local(b, ds[0][1]['args'][0], depth + 1)
+    return base[0]
+
+
 def _borrows_region_local(b, a, region):
     """is the `&mut` operand a borrow of something that only exists inside the given region (an iterator built for an
     `all(..)` inside a debug_assert, say)?  Then what it mutates is gone with the region."""
@@ -421,7 +435,22 @@ def run(facts, cg):
                     if fs:
                         wr.append(fs)
                         break
-        instances.append({'rule': 'R-COPYARM', 'function': b.q, 'read_seeks': rd, 'write_seeks': wr, 'buffer_sizes': sizes})
+        # ... and the sizing is not conditional: every exact read into a buffer is dominated by a resize of that buffer to the
+        # operation's size (a bounce buffer that "only ever grows" reads - and then writes - the length of the biggest chunk so far)
+        dom_ = b.dominators()
+        resize_sites = [(bi, b.base_of(t['args'][0])) for bi, t in b.calls() if 'q' in t['callee'] and callee_q(t).endswith('BytesMut::resize') and t['args']]
+        unsized = []
+        for bi, t in b.calls():
+            if 'q' in t['callee'] and t['callee']['q'].endswith('AsyncReadExt::read_exact') and len(t['args']) > 1:
+                buf = _buffer_root_local(b, t['args'][1])
+                if buf is None:
+                    continue
+                if not any(rb and rb[0] == buf and (rbi in dom_.get(bi, ()) or rbi == bi) for rbi, rb in resize_sites):
+                    unsized.append(t['loc'])
+        instances.append({'rule': 'R-COPYARM', 'function': b.q, 'read_seeks': rd, 'write_seeks': wr, 'buffer_sizes': sizes, 'reads_without_dominating_resize': len(unsized)})
+        if unsized:
+            finding('R-COPYARM', b.q, 'size-conditional', 'the exact read at %s fills a buffer that is not brought to the size of its reorder operation on every path '
+                    '(conditional resize): a smaller chunk moved after a bigger one is read and written with the bigger length' % unsized[0])
         if not rd or not all('source' in x for x in rd):
             finding('R-COPYARM', b.q, 'seek-role', 'a chunk is not read from the source offset of its own reorder operation (%s)' % rd)
         if not sizes or not all('size' in x for x in sizes):
@@ -545,6 +574,109 @@ def run(facts, cg):
                 finding('R-AWAITED', b.q, 'never-polled:%s' % (callee_q(t).split('::')[-1] if 'q' in t['callee'] else 'call'),
                         'the future returned at %s is dropped without being awaited: the operation never happens' % t['loc'])
     instances.append({'rule': 'R-AWAITED', 'obligations': nf, 'futures_checked': nf})
+
+    # ---------------------------------------------------------------- R-AWAITED(cancel): no step of the clone / compress paths is raced against a timer
+    # `select!` (and `timeout`, `future::select`) drops the future that loses.  The steps here are not cancel-safe: `feed` has taken
+    # the chunk out of the index before it writes, a chunk taken from the stream and half written to the temp file is gone - the
+    # retried call finds nothing left to do and reports success.  Nothing on these paths may be polled through such a race.
+    RACES = ('tokio::macros::support::thread_rng_n', 'tokio::macros::support::poll_fn', 'tokio::time::timeout::timeout', 'tokio::time::timeout::timeout_at',
+             'futures_util::future::select::select', 'futures_util::future::select_all::select_all', 'futures_util::future::select_ok::select_ok',
+             'futures_util::future::try_select::try_select', 'futures_util::future::abortable::abortable', 'tokio::task::join_set::JoinSet::abort_all',
+             'tokio::task::join::JoinHandle::abort')
+    n_cmd = 0
+    for b in facts.bodies.values():
+        if b.generated or b.crate not in ('bita', 'bitar'):
+            continue
+        if b.crate == 'bita':
+            n_cmd += 1
+        for bi, t in b.calls():
+            if 'q' in t['callee'] and (callee_q(t) in RACES or t['callee']['q'] in RACES):
+                owner = b.q.split('::{closure')[0]
+                finding('R-AWAITED', owner, 'raced:' + callee_q(t).split('::')[-1], 'a step of %s is polled through %s at %s: the future that loses the race is dropped '
+                        'half way (a chunk already taken out of the index / out of the stream is neither written nor asked for again)' % (owner, callee_q(t), t['loc']))
+    instances.append({'rule': 'R-AWAITED(cancel)', 'bodies_scanned': n_cmd})
+
+    # ---------------------------------------------------------------- R-STALEBUF: read_to_end appends
+    # a buffer that is filled with read_to_end / read_to_string inside a loop is created (or cleared) inside that loop: declared
+    # once outside, the n-th value is the concatenation of the first n
+    APPENDERS = ('std::io::Read::read_to_end', 'std::io::Read::read_to_string', 'tokio::io::util::async_read_ext::AsyncReadExt::read_to_end',
+                 'tokio::io::util::async_read_ext::AsyncReadExt::read_to_string')
+    n_app = 0
+    for b in facts.bodies.values():
+        if b.generated or b.crate not in ('bita', 'bitar'):
+            continue
+        for bi, t in b.calls():
+            if 'q' not in t['callee'] or t['callee']['q'] not in APPENDERS or len(t['args']) < 2:
+                continue
+            n_app += 1
+            if bi not in (_reach_blocks(b, bi) - {bi}) and not any(bi in _reach_blocks(b, s_) for s_ in succs(t)):
+                continue        # not in a loop
+            buf = _buffer_root_local(b, t['args'][1])
+            if buf is None:
+                continue
+            in_loop = {x for x in _reach_blocks(b, bi) if bi in _reach_blocks(b, x)}
+            fresh = any(d[2] in in_loop for d in b.defs().get(buf, []))
+            cleared = any(cbi in in_loop and 'q' in ct['callee'] and callee_q(ct).split('::')[-1] in ('clear', 'truncate', 'take', 'split_off', 'drain') and ct['args'] and
+                          _buffer_root_local(b, ct['args'][0]) == buf for cbi, ct in b.calls())
+            if not fresh and not cleared:
+                finding('R-STALEBUF', b.q.split('::{closure')[0], callee_q(t).split('::')[-1], 'the buffer filled by %s at %s inside a loop is neither created nor cleared in that '
+                        'loop: the call appends, every later value starts with all the earlier ones' % (callee_q(t).split('::')[-1], t['loc']))
+    instances.append({'rule': 'R-STALEBUF', 'appending_reads': n_app})
+
+    # ---------------------------------------------------------------- R-KEYLEN(offsets): add_chunk keeps every offset it is given
+    # the same function builds the index of where chunks can be found and the index of where they must be written: an offset
+    # it leaves out is a place that is never written
+    n_add = 0
+    for b in facts.bodies.values():
+        if b.q != 'bitar::chunk_index::ChunkIndex::add_chunk' and not (b.raw['kind'] == 'Closure' and (b.raw.get('parent') or '').endswith('::add_chunk')):
+            continue
+        n_add += 1
+        for bi, t in b.calls():
+            if 'q' in t['callee'] and callee_q(t).split('::')[-1] in ('take', 'skip', 'step_by', 'take_while', 'skip_while', 'filter', 'truncate', 'nth', 'last', 'first', 'dedup') \
+                    and ('Iterator' in t['callee']['q'] or 'slice' in callee_q(t) or 'Vec' in callee_q(t) or callee_q(t).startswith('[T]::')):
+                recv = simplify(T.of_operand(b, t['args'][0])) if t['args'] else None
+                if recv is not None and any(n_[0] == 'param' and n_[2] == 3 for n_ in walk(recv)):
+                    finding('R-KEYLEN', 'bitar::chunk_index::ChunkIndex::add_chunk', 'offsets-thinned:' + callee_q(t).split('::')[-1], 'add_chunk passes the offsets it is given '
+                            'through %s at %s: the places it leaves out are never written (the clone index is built by this very function)' % (callee_q(t).split('::')[-1], t['loc']))
+    if n_add < 1:
+        finding('R-KEYLEN', '-', 'floor-add', 'ChunkIndex::add_chunk was not found (cannot decide)')
+
+    # ---------------------------------------------------------------- R-DEBUGONLY(log): what only runs when a log level is enabled cannot panic
+    # the arguments of log macros are evaluated only when the level is on: `debug!(".. {}", list[0].offset)` passes every test (no
+    # logger installed) and panics under -v when the list is empty
+    LOGM = ('log::debug', 'log::trace', 'log::info', 'log::warn', 'log::error', 'debug', 'trace', 'info', 'warn', 'error', '$crate::log', 'log::log')
+    n_log = 0
+    for b in facts.original.values():
+        if b.generated or b.crate not in ('bita', 'bitar'):
+            continue
+        cdom = None
+        for sbi in b.live:
+            sw = b.blocks[sbi]['term']
+            mac = sw.get('mac') or []
+            if sw['k'] != 'switch' or not mac or not any(m_.split('::')[-1] in ('debug', 'trace', 'info', 'warn', 'error', 'log') and ('log' in m_ or m_ in LOGM) for m_ in mac) or sw['vals'] != [0]:
+                continue
+            n_log += 1
+            on, off = sw['otherwise'], sw['targets'][0]
+            if on == off:
+                continue
+            cdom = cdom or b._classic_dominators()
+            for rbi in b.live:
+                if on not in cdom.get(rbi, ()):
+                    continue
+                t = b.blocks[rbi]['term']
+                if t.get('exp'):
+                    continue
+                hazard = None
+                if t['k'] == 'assert' and t.get('ak') in ('BoundsCheck', 'DivisionByZero', 'RemainderByZero', 'Overflow(Sub)'):
+                    hazard = t['ak']
+                elif t['k'] == 'call' and 'q' in t['callee'] and (t['callee']['q'] in ('core::ops::index::Index::index',) or
+                                                                  callee_q(t) in ('core::option::Option::unwrap', 'core::result::Result::unwrap', 'core::option::Option::expect',
+                                                                                  'core::result::Result::expect')):
+                    hazard = callee_q(t).split('::')[-1]
+                if hazard:
+                    finding('R-DEBUGONLY', b.q, 'panic-in-log:' + hazard, 'an argument of a log macro at %s can panic (%s): it is only evaluated when that log level is enabled, which '
+                            'no test does' % (t['loc'], hazard))
+    instances.append({'rule': 'R-DEBUGONLY(log)', 'log_gates': n_log})
 
     # ---------------------------------------------------------------- R-DEBUGONLY: nothing the program relies on happens inside a debug_assert
     # `debug_assert!(map.insert(k, v).is_none())` keeps the tests (debug builds) green and drops the insert from the release
